@@ -39,6 +39,9 @@ BugImportF(s) ==
   THEN [r EXCEPT !.local = [b \in B |-> IF s.git[b] # s.atgit[b] THEN Normal(s.git[b]) ELSE r.local[b]]]
   ELSE IF Bug = "import_forgets_atgit" \* the @git record is not updated: a second import merges again
   THEN [r EXCEPT !.atgit = s.atgit]
+  ELSE IF Bug = "reimport_resolves"    \* an import with nothing new "resolves" a conflict to Git's side
+  THEN [r EXCEPT !.local = [b \in B |-> IF b \notin ImportChanged(s) /\ IsConflicted(s.local[b])
+                                        THEN Normal(s.git[b]) ELSE r.local[b]]]
   ELSE r
 BugExportF(s) ==
   IF Bug = "export_overwrites"         \* export without compare-and-swap on the last seen value
@@ -46,6 +49,8 @@ BugExportF(s) ==
           !.git   = [b \in B |-> IF ExportWanted(s, b) THEN Target(s.local[b]) ELSE s.git[b]],
           !.seen  = [b \in B |-> IF ExportWanted(s, b) THEN Target(s.local[b]) ELSE s.seen[b]],
           !.atgit = [b \in B |-> IF ~IsConflicted(s.local[b]) THEN Target(s.local[b]) ELSE s.atgit[b]]]
+  ELSE IF Bug = "export_silent"       \* export neither writes nor reports
+  THEN s
   ELSE ExportF(s)
 BugFailed(s) == IF Bug \in {"export_overwrites", "export_silent"} THEN {} ELSE ExportFailed(s)
 
